@@ -31,6 +31,9 @@ pub enum Step {
     DropByPanic { sel: u16 },
     /// the application asks for the event stream once more and keeps reading the one(s) it had
     Resubscribe,
+    /// a request the application holds arrives once more (the peer retransmitted it: same source, same
+    /// id, same payload); it is delivered again, and each delivery is answered on its own
+    TalkAgain { sel: u16 },
 }
 
 #[derive(Clone, Debug, PartialEq, Eq, Hash, Serialize, Deserialize)]
@@ -271,6 +274,9 @@ async fn run(case: &Case, rep: &mut CaseReport) -> Option<(String, String)> {
     s.take_events();
     let (known, moved) = (case.known, case.moved);
     let mut fates: HashMap<(NodeAddress, RequestId), Fate> = HashMap::new();
+    // second delivery of a request (retransmission): at most one per request
+    let mut twins: HashMap<(NodeAddress, RequestId), Fate> = HashMap::new();
+    let mut payloads: HashMap<(NodeAddress, RequestId), Vec<u8>> = HashMap::new();
     let mut held: Vec<TalkRequest> = Vec::new();
     let mut answers: HashMap<(NodeAddress, RequestId), Vec<Vec<u8>>> = HashMap::new();
     let mut counter: u64 = 0;
@@ -298,6 +304,20 @@ async fn run(case: &Case, rep: &mut CaseReport) -> Option<(String, String)> {
         ($when:expr) => {{
             for (k, f) in &fates {
                 let got = answers.get(k).cloned().unwrap_or_default();
+                if let Some(tw) = twins.get(k) {
+                    // delivered twice: one answer per delivery that is no longer held, nothing else
+                    let mut want: Vec<Vec<u8>> = [f, tw].iter().filter_map(|x| match x { Fate::Held => None, Fate::Responded(p) => Some(p.clone()), _ => Some(vec![]) }).collect();
+                    let mut have = got.clone();
+                    want.sort();
+                    have.sort();
+                    if want != have {
+                        return Some((
+                            if have.len() > want.len() { "talk/answered-while-held".to_string() } else { "talk/no-answer/after-respond".to_string() },
+                            format!("request {} from {} was delivered twice (a retransmission); deliveries settled so far call for the answers {:?}, the node sent {:?} ({})", k.1, k.0, want, have, $when),
+                        ));
+                    }
+                    continue;
+                }
                 let want: Option<Vec<u8>> = match f {
                     Fate::Held => None,
                     Fate::Responded(p) => Some(p.clone()),
@@ -362,6 +382,7 @@ async fn run(case: &Case, rep: &mut CaseReport) -> Option<(String, String)> {
             }
             Step::Talk { from, idlen, payload } => {
                 let k = inject(&mut s, *from, *idlen, payload.clone(), &mut counter);
+                payloads.insert(k.clone(), payload.clone());
                 s.settle().await;
                 let deliverable = registered && (s.drain_events || pending_in_channel < 100);
                 if registered && !s.drain_events {
@@ -399,6 +420,21 @@ async fn run(case: &Case, rep: &mut CaseReport) -> Option<(String, String)> {
                     fates.insert(k, if deliverable { Fate::Held } else { Fate::Undeliverable });
                 }
             }
+            Step::TalkAgain { sel } => {
+                collect!();
+                let cands: Vec<(NodeAddress, RequestId)> = fates.iter().filter(|(k, f)| matches!(f, Fate::Held) && !twins.contains_key(*k) && payloads.contains_key(*k) && held.iter().any(|t| t.node_id() == &k.0.node_id && t.id() == &k.1)).map(|(k, _)| k.clone()).collect();
+                if cands.is_empty() || !s.drain_events || !registered {
+                    continue;
+                }
+                let mut cands = cands;
+                cands.sort_by(|a, b| a.1 .0.cmp(&b.1 .0));
+                let k = cands[(*sel as usize * cands.len()) >> 16].clone();
+                let req = Request { id: k.1.clone(), body: RequestBody::Talk { protocol: b"p".to_vec(), request: payloads[&k].clone() } };
+                let _ = s.h.to_service.try_send(HandlerOut::Request(k.0.clone(), Box::new(req)));
+                s.settle().await;
+                twins.insert(k, Fate::Held);
+                rep.class("held-request-arrives-again(retransmission)");
+            }
             Step::Respond { sel, payload } => {
                 collect!();
                 if !held.is_empty() {
@@ -410,7 +446,11 @@ async fn run(case: &Case, rep: &mut CaseReport) -> Option<(String, String)> {
                         return Some(("talk/respond-failed-while-running".into(), format!("respond() returned {r:?} while the service is running")));
                     }
                     if let Some(key) = key {
-                        fates.insert(key, Fate::Responded(payload.clone()));
+                        if !matches!(fates.get(&key), Some(Fate::Held)) && matches!(twins.get(&key), Some(Fate::Held)) {
+                            twins.insert(key, Fate::Responded(payload.clone()));
+                        } else {
+                            fates.insert(key, Fate::Responded(payload.clone()));
+                        }
                     }
                 }
             }
@@ -438,7 +478,11 @@ async fn run(case: &Case, rep: &mut CaseReport) -> Option<(String, String)> {
                         drop(t);
                     }
                     if let Some(key) = key {
-                        fates.insert(key, Fate::Dropped);
+                        if !matches!(fates.get(&key), Some(Fate::Held)) && matches!(twins.get(&key), Some(Fate::Held)) {
+                            twins.insert(key, Fate::Dropped);
+                        } else {
+                            fates.insert(key, Fate::Dropped);
+                        }
                     }
                 }
             }
@@ -508,6 +552,7 @@ impl Property for C20 {
             1 => any::<u16>().prop_map(|sel| Step::DropByPanic { sel }),
             1 => any::<bool>().prop_map(Step::SetDraining),
             1 => Just(Step::Resubscribe),
+            2 => any::<u16>().prop_map(|sel| Step::TalkAgain { sel }),
             1 => (0u8..4, prop_oneof![Just(5u8), Just(110u8)]).prop_map(|(from, n)| Step::Burst { from, n }),
             2 => prop_oneof![1u32..200, 200u32..3000, 3000u32..20000, Just(60_000u32)].prop_map(|ms| Step::Wait { ms }),
         ];
